@@ -1,9 +1,9 @@
 SPECIFICATION Spec
 CONSTANTS NV = 5
           Mode = "C34"
-          Areas = {"node"}
+          Areas = {"nodeA", "nodeB"}
           AltSp = TRUE
-          MaxView = 3
+          MaxView = 2
           MaxHeight = 3
           MaxId = 2
           MaxSigns = 99
